@@ -15,7 +15,9 @@
 (*                                                                         *)
 (* State: memo (the _asaffine_geom / _asaffine_retval attributes of the     *)
 (* topology object), the call history with the results, the last call.      *)
-(* Action LocateCall(g, hasargs, args, targets), step by step as the code:  *)
+(* Actions Begin (CallFree / CallFreeExtraArgs / CallWithArgs: the caller    *)
+(* spells the call: geometry object, arguments, targets) and Run, which is   *)
+(* LocateCall(g, hasargs, args, targets) step by step as the code:          *)
 (*   fit    := memo if memo.geom is g else _asaffine(g, args)               *)
 (*   error  >  tol  -> generic search (any containing element / raise)      *)
 (*   store memo  iff  the call has no arguments  (design toggle MemoAlways) *)
@@ -41,8 +43,8 @@ CONSTANTS MaxCalls,     \* length of a history
           TopoIds,      \* which topologies
           NTargetSets   \* how many of the target sequences are used
 
-VARIABLES topo, memo, hist, last
-vars == <<topo, memo, hist, last>>
+VARIABLES topo, memo, hist, last, pend
+vars == <<topo, memo, hist, last, pend>>
 
 U == 128
 Pow2(l) == IF l = 0 THEN 1 ELSE IF l = 1 THEN 2 ELSE 4
@@ -118,6 +120,7 @@ TargetsOf(t, i, m) == LET rp == RootPoints(t, i) IN [k \in 1..Len(rp) |-> Phys(m
 
 \* ------------------------------------------------------------------ the algorithm
 NoFit == [g0 |-> <<>>, sc |-> <<>>, err |-> FALSE]
+NoPend == [set |-> FALSE, g |-> "none", hasargs |-> FALSE, m |-> Map(<<>>, <<>>, 0), tsi |-> 0, own |-> FALSE]
 NoMemo == [set |-> FALSE, geom |-> "none", dep |-> FALSE, fit |-> NoFit]
 \* _asaffine: exact on an affine geometry; the error estimate exceeds every tolerance iff the map is sheared
 Asaffine(t, m) == [g0 |-> [d \in 1..Nd(t) |-> Y(m, d, (t.axes[d].a * U) \div Pow2(t.lev))],
@@ -145,7 +148,13 @@ Init == /\ topo \in Topos
         /\ memo = NoMemo
         /\ hist = <<>>
         /\ last = [n |-> 0, m |-> Map(<<>>, <<>>, 0), ts |-> <<>>, res |-> Raised]
+        /\ pend = NoPend
 
+\* the caller spells the call ...
+Begin(g, hasargs, m, tsi, own) == /\ Len(hist) < MaxCalls /\ ~pend.set
+                                 /\ pend' = [set |-> TRUE, g |-> g, hasargs |-> hasargs, m |-> m, tsi |-> tsi, own |-> own]
+                                 /\ UNCHANGED <<topo, memo, hist, last>>
+\* ... and locate runs
 LocateCall(g, hasargs, m, tsi, own) ==
     LET ts == TargetsOf(topo, tsi, IF own THEN m ELSE ArgVals(Nd(topo))[1])
         usememo == memo.set /\ memo.geom = g
@@ -154,20 +163,21 @@ LocateCall(g, hasargs, m, tsi, own) ==
         store == ~fit.err /\ (~hasargs \/ MemoAlways)
         rec == [g |-> g, hasargs |-> hasargs, m |-> m, ts |-> ts, tsi |-> tsi, own |-> own, raised |-> res.raised, pts |-> res.pts,
                 path |-> (IF usememo THEN "memo" ELSE "fit") \o (IF fit.err THEN "+generic" ELSE "+structured")]
-    IN /\ Len(hist) < MaxCalls
-       /\ memo' = IF store THEN [set |-> TRUE, geom |-> g, dep |-> g = "P", fit |-> fit] ELSE memo
+    IN /\ memo' = IF store THEN [set |-> TRUE, geom |-> g, dep |-> g = "P", fit |-> fit] ELSE memo
        /\ hist' = Append(hist, rec)
        /\ last' = [n |-> Len(hist) + 1, m |-> m, ts |-> ts, res |-> res]
+       /\ pend' = NoPend
        /\ UNCHANGED topo
+Run == pend.set /\ LocateCall(pend.g, pend.hasargs, pend.m, pend.tsi, pend.own)
 
 \* one disjunct per spelling of the call, so that the coverage tells them apart
 CallFree == /\ Len(hist) < MaxCalls
-            /\ \E g \in {"F1", "F2"}, i \in 1..NTargetSets, own \in BOOLEAN : LocateCall(g, FALSE, FixedMap(g, Nd(topo)), i, own)
+            /\ \E g \in {"F1", "F2"}, i \in 1..NTargetSets, own \in BOOLEAN : Begin(g, FALSE, FixedMap(g, Nd(topo)), i, own)
 CallFreeExtraArgs == /\ Len(hist) < MaxCalls
-                     /\ \E i \in 1..NTargetSets, own \in BOOLEAN : LocateCall("F1", TRUE, FixedMap("F1", Nd(topo)), i, own)
+                     /\ \E i \in 1..NTargetSets, own \in BOOLEAN : Begin("F1", TRUE, FixedMap("F1", Nd(topo)), i, own)
 CallWithArgs == /\ Len(hist) < MaxCalls
-                /\ \E a \in 1..Len(ArgVals(Nd(topo))), i \in 1..NTargetSets, own \in BOOLEAN : LocateCall("P", TRUE, ArgVals(Nd(topo))[a], i, own)
-Next == CallFree \/ CallFreeExtraArgs \/ CallWithArgs
+                /\ \E a \in 1..Len(ArgVals(Nd(topo))), i \in 1..NTargetSets, own \in BOOLEAN : Begin("P", TRUE, ArgVals(Nd(topo))[a], i, own)
+Next == CallFree \/ CallFreeExtraArgs \/ CallWithArgs \/ Run
 Spec == Init /\ [][Next]_vars
 
 \* ------------------------------------------------------------------ property clauses
@@ -188,14 +198,14 @@ Predict(c) == [g |-> c.g, hasargs |-> c.hasargs, m |-> c.m, ts |-> c.ts, tsi |->
                             [i \in 1..Cardinality(C) |-> CHOOSE b \in C : Cardinality({a \in C : a.e < b.e}) = i - 1]]]
 Behaviour == [topo |-> [id |-> topo.id, lev |-> topo.lev, axes |-> topo.axes, off |-> [e \in 1..NElems(topo) |-> (e - 1) \in topo.off]],
               hist |-> [n \in 1..Len(hist) |-> Predict(hist[n])]]
-EmitFull == Len(hist) = MaxCalls => Emit(Behaviour)
+EmitFull == (Len(hist) = MaxCalls /\ ~pend.set) => Emit(Behaviour)
 \* exhaustive runs: the histories in which the memo could matter at all -- the same argument dependent geometry object is
-\* located twice in a row with different argument values (first with an axis aligned map, which is the one a wrong design
-\* would remember), targets of the second call generated with its own map
+\* located twice in a row with different argument values (axis aligned maps: the ones a wrong design would remember and
+\* re-use), targets of the second call generated with its own map
 MemoRelevant == /\ Len(hist) = MaxCalls /\ MaxCalls >= 2
                 /\ LET c1 == hist[MaxCalls - 1]
                        c2 == hist[MaxCalls]
-                   IN /\ c1.g = "P" /\ c2.g = "P" /\ c1.m # c2.m /\ c1.m.k = 0
+                   IN /\ c1.g = "P" /\ c2.g = "P" /\ c1.m # c2.m /\ c1.m.k = 0 /\ c2.m.k = 0
                       /\ c1.tsi = 1 /\ c1.own /\ c2.tsi = 1 /\ c2.own
                       /\ (MaxCalls > 2 => hist[1].g = "F1" /\ hist[1].tsi = 1 /\ hist[1].own /\ ~hist[1].hasargs)
 EmitMemoRelevant == MemoRelevant => Emit(Behaviour)
